@@ -601,7 +601,8 @@ func uint64Range(c *Ctx, rm recMod, roots []*ssa.Function, checkedSum func(*ir.E
 	}
 	n := 0
 	for f := range w.Reachable(rs) {
-		if ir.ModuleOf(f) != rm.M || w.IsGenerated(f) {
+		// the module's own code and code shared between modules (an internal helper package) it reaches
+		if mo := ir.ModuleOf(f); mo != rm.M && isCustomModule(mo) || w.IsGenerated(f) || ir.FnPkg(f) == nil || !ir.InScope(ir.FnPkg(f)) {
 			continue
 		}
 		for _, b := range f.Blocks {
@@ -912,4 +913,13 @@ func prunePairing(c *Ctx, rm recMod) {
 		}
 	}
 	r.Floor("insert-then-prune functions of "+rm.M, n, 1)
+}
+
+func isCustomModule(m string) bool {
+	for _, x := range ir.Modules {
+		if x == m {
+			return true
+		}
+	}
+	return false
 }
